@@ -427,7 +427,28 @@ def cut_workload(case, spec, rtol, atol, probe, rng, viol, classes, keys, mon, k
         tol = 2 * (atol + rtol * vcut) + noise / slope + 1e-9
         out.update(fastestDeflag=fd, tol=tol, flags=list(p2.hyd.doesPhaseTraceLimitvmax))
         out["interior_excursion"] = interior_excursion
-        if abs(fd - vcut) > tol and interior_excursion:
+        # the code brackets T(v)-Tmax between vMin+vBracketLow and vJ-vBracketLow; look at
+        # its own matching at the lower end (slow wall) with the flux oracle
+        lower_end_bad = False
+        if abs(fd - vcut) > tol and not interior_excursion:
+            vlo = p2.hyd.vMin + p2.hyd.vBracketLow
+            ml = p2.matching(vlo)
+            if not ml.get("none") and not ml["error"]:
+                rl = p2.flux_residuals(ml["vp"], ml["vm"], ml["Tp"], ml["Tm"])
+                Tl = ml["Tm"] if phase == "L" else ml["Tp"]
+                lower_end_bad = bool(max(abs(rl[0]), abs(rl[1])) > 1e-3 and Tl > Tcut)
+                out["lower_bracket_end"] = {"vw": vlo, "flux_residuals": list(rl),
+                                            "T_over_Tcut": Tl / Tcut}
+        if lower_end_bad:
+            viol.append({"mech": "fastestDeflag-bracket-end-at-nonconverged-slow-wall-matching",
+                         "msg": f"phase {phase} range end is reached at v_cut={vcut:.6f} but "
+                         f"fastestDeflag()={fd:.6f} (vJ={p2.hyd.vJ:.6f}): the matching at the "
+                         f"lower bracket end vMin+vBracketLow={out['lower_bracket_end']['vw']:.4g} "
+                         f"violates flux conservation (residuals "
+                         f"{out['lower_bracket_end']['flux_residuals']}) and its temperature is "
+                         f"above the range end, so T(v)-Tmax has no sign change; on {spec}",
+                         "data": out})
+        elif abs(fd - vcut) > tol and interior_excursion:
             viol.append({"mech": "fastestDeflag-misses-interior-range-excursion",
                          "msg": f"phase {phase} range end is exceeded from v_cut={vcut:.6f} on "
                          f"but not at vJ-1e-3 (non-monotone T); fastestDeflag()={fd:.6f} "
@@ -439,7 +460,8 @@ def cut_workload(case, spec, rtol, atol, probe, rng, viol, classes, keys, mon, k
                          f"fastestDeflag()={fd:.9f} (diff {fd - vcut:.2e}, tol {tol:.1e}) on "
                          f"{spec}", "data": out})
         want_flags = [phase == "H", phase == "L"]
-        if list(p2.hyd.doesPhaseTraceLimitvmax) != want_flags and not interior_excursion:
+        if list(p2.hyd.doesPhaseTraceLimitvmax) != want_flags and not interior_excursion \
+                and not lower_end_bad:
             viol.append({"mech": "doesPhaseTraceLimitvmax-wrong",
                          "msg": f"flags {p2.hyd.doesPhaseTraceLimitvmax}, expected "
                          f"{want_flags} (phase {phase} cut, end not flagged as spinodal)",
